@@ -97,7 +97,7 @@ class TSIG(dns.rdata.Rdata):
     def from_text(
         cls, rdclass, rdtype, tok, origin=None, relativize=True, relativize_to=None
     ):
-        algorithm = tok.get_name(relativize=False)
+        algorithm = tok.get_name(origin, relativize=False)
         time_signed = tok.get_uint48()
         fudge = tok.get_uint16()
         mac_len = tok.get_uint16()
